@@ -14,11 +14,19 @@ pub struct Judge {
     pub mem: bool,
     pub cost: bool,
     pub panics: bool,
+    /// attribution: judge only steps whose EXECUTED instruction belongs to the property's class
+    /// (operand placement can overlap the code bytes, so the executed instruction is what the
+    /// reference decoded, not necessarily what the generator intended)
+    pub only: Option<fn(&Insn) -> bool>,
 }
 
 impl Judge {
-    pub const FULL: Judge = Judge { outcome: true, regs: true, ccr: true, pc: true, mem: true, cost: false, panics: false };
-    pub const COST: Judge = Judge { outcome: false, regs: false, ccr: false, pc: false, mem: false, cost: true, panics: false };
+    pub const FULL: Judge = Judge { outcome: true, regs: true, ccr: true, pc: true, mem: true, cost: false, panics: false, only: None };
+    pub const COST: Judge = Judge { outcome: false, regs: false, ccr: false, pc: false, mem: false, cost: true, panics: false, only: None };
+    pub fn only(mut self, f: fn(&Insn) -> bool) -> Judge {
+        self.only = Some(f);
+        self
+    }
     pub fn wants(&self, d: &Diff) -> bool {
         match d {
             Diff::RealErr(_) | Diff::RealOk => self.outcome,
@@ -55,6 +63,12 @@ pub fn record(rep: &mut Report, check: &str, case: &Case, obs: &Obs, j: &Judge) 
             rep.finding(&sig, || format!("panic at {}:{}: {} on {}", p.file, p.line, p.msg, case.to_line()), || format!("check={} kind=step {}", check, case.to_line()));
         }
         return false;
+    }
+    if let Some(f) = j.only {
+        if !matches!(obs.step.outcome, Outcome::Unjudged(_)) && !f(&obs.step.insn) {
+            rep.count("executed_instruction_outside_property_class", 1);
+            return false;
+        }
     }
     match (&obs.step.outcome, &obs.real) {
         (Outcome::Unjudged(_), _) => {
@@ -105,8 +119,26 @@ pub fn drain_strays(rep: &mut Report, check: &str, lock: &mut Lock, j: &Judge) {
                     rep.count("diffs_outside_property", 1);
                     continue;
                 }
-                let ws: Vec<u16> = c.code.chunks(2).map(|b| ((b[0] as u16) << 8) | *b.get(1).unwrap_or(&0) as u16).collect();
-                let form = crate::gen::decode_words(&ws).form();
+                // the instruction that was really executed: code bytes with the patches laid over them
+                let mut bytes = [0u8; 10];
+                for (i, b) in c.code.iter().take(10).enumerate() {
+                    bytes[i] = *b;
+                }
+                for (a, v) in &c.patches {
+                    let d = a.wrapping_sub(c.pc);
+                    if d < 10 {
+                        bytes[d as usize] = *v;
+                    }
+                }
+                let ws: Vec<u16> = bytes.chunks(2).map(|b| ((b[0] as u16) << 8) | b[1] as u16).collect();
+                let insn = crate::gen::decode_words(&ws);
+                if let Some(f) = j.only {
+                    if !f(&insn) {
+                        rep.count("executed_instruction_outside_property_class", 1);
+                        continue;
+                    }
+                }
+                let form = insn.form();
                 let sig = format!("{}|mem.stray", form);
                 rep.finding(&sig, || format!("{}: stray write mem[{:06x}] = {:02x}, reference {:02x}; case {}", form, addr, real, model, c.to_line()), || {
                     format!("check={} kind=step {}", check, c.to_line())
@@ -125,4 +157,29 @@ pub fn drain_strays(rep: &mut Report, check: &str, lock: &mut Lock, j: &Judge) {
 
 pub fn fid(form: &str) -> u64 {
     hash_str(form)
+}
+
+pub fn is_mov(i: &Insn) -> bool {
+    i.mn == crate::refmodel::decode::Mn::Mov
+}
+pub fn is_arith(i: &Insn) -> bool {
+    use crate::refmodel::decode::Mn::*;
+    matches!(i.mn, Add | Sub | Cmp | Addx | Adds | Subs | Inc | Dec | Neg | Mulxu | Divxu)
+}
+pub fn is_logic(i: &Insn) -> bool {
+    use crate::refmodel::decode::Mn::*;
+    matches!(i.mn, And | Or | Xor | Not | Extu | Shll | Shal | Shlr | Shar | Rotxl | Rotl | Rotxr | Rotr)
+}
+pub fn is_bit(i: &Insn) -> bool {
+    use crate::refmodel::decode::Mn::*;
+    matches!(i.mn, Bset | Bnot | Bclr | Btst | Bst | Bist | Bld | Bild | Band | Biand | Bor | Bior | Bxor | Bixor)
+}
+pub fn is_flow(i: &Insn) -> bool {
+    use crate::refmodel::decode::Mn::*;
+    matches!(i.mn, Bcc | Jmp | Bsr | Jsr | Rts)
+}
+pub fn is_exception(i: &Insn) -> bool {
+    use crate::refmodel::decode::Mn::*;
+    // interrupt acceptance is recorded with an undefined pseudo-instruction
+    matches!(i.mn, Trapa | Rte | Undef)
 }
